@@ -14,6 +14,11 @@ import (
 
 // valOfSigner: the harness-side registry of who may speak for which validator on a chain.
 func (w *World) valOfSigner(chain, signer string) (sdk.ValAddress, bool) {
+	if v, ok := w.keyModelOf(chain).orchVal[signer]; ok {
+		if va, err := sdk.ValAddressFromBech32(v); err == nil {
+			return va, true
+		}
+	}
 	ci := w.Cfg.ChainIdx(chain)
 	for _, v := range w.Vals {
 		if v.Oper.Addr.String() == signer {
